@@ -83,6 +83,17 @@ func shape(b string) string {
 		}
 		return "all digits beyond uint64"
 	}
+	if len(b) > 1 && (b[0] == '-' || b[0] == '+') {
+		num := true
+		for i := 1; i < len(b); i++ {
+			if b[i] < '0' || b[i] > '9' {
+				num = false
+			}
+		}
+		if num {
+			return "signed number"
+		}
+	}
 	var cl []string
 	has := map[string]bool{}
 	add := func(c string) {
@@ -134,23 +145,35 @@ type obs struct {
 }
 
 type checker struct {
-	rep      *mbt.Report
-	tier     string
-	discards int
-	judged   int
-	mu       sync.Mutex
-	uniq     map[string]string // position|token -> bytes (printed alike check)
+	rep       *mbt.Report
+	tier      string
+	discards  int
+	disCrash  int
+	discardBy map[string]int
+	judged    int
+	mu        sync.Mutex
+	uniq      map[string]string // position|token -> bytes (printed alike check)
 }
 
 func (c *checker) kase(dir string, p *position, b string) map[string]interface{} {
 	return map[string]interface{}{"dir": dir, "pos": p.name, "bytes": hex.EncodeToString([]byte(b)), "text": b}
 }
 
+// unobservable counts records where llvm-as accepted the module but llvm-dis could not print it.
+func (c *checker) unobservable() {
+	c.mu.Lock()
+	c.disCrash++
+	c.mu.Unlock()
+}
+
 func (c *checker) discard(format string, a ...interface{}) {
 	c.mu.Lock()
 	defer c.mu.Unlock()
 	c.discards++
-	if c.discards <= 8 {
+	key := strings.SplitN(fmt.Sprintf(format, a...), ",", 2)[0]
+	key = strings.SplitN(key, ":", 2)[0]
+	c.discardBy[key]++
+	if c.discardBy[key] <= 2 {
 		c.rep.Note("spec/LLVM disagreement (record discarded, never a verdict): "+format, a...)
 	}
 }
@@ -224,10 +247,15 @@ func canon(p *position, text string) (string, bool, string) {
 		mbt.Infra("llvm-dis: %v", err)
 	}
 	if code != 0 {
-		return "", false, "llvm-dis fails on the module llvm-as accepted: " + firstLine(strings.TrimSpace(string(se)))
+		// llvm-dis 14 crashes when it prints a metadata name with a byte >= 0x80 (isalpha on a
+		// negative char): the module was read, but LLVM's reading cannot be observed
+		return disCrashed, true, ""
 	}
 	return string(so), true, ""
 }
+
+// disCrashed is returned by canon as output when llvm-as accepted the module and llvm-dis failed.
+const disCrashed = "\x00llvm-dis failed\x00"
 
 func permitted(p *position, b string) bool {
 	if b == "" {
@@ -255,13 +283,13 @@ func (c *checker) printOne(p *position, b string) *obs {
 		p.build(m, []item{o.it})
 		o.text = m.String()
 	}); pan {
-		c.rep.Fail(mbt.Failure{Signature: "C11|" + p.name + "|printer|panic|" + shape(b),
+		c.rep.Fail(mbt.Failure{Signature: "C11|" + p.enc + "|panic|" + shape(b),
 			What: fmt.Sprintf("printing a module with %q at position %s panics: %s", b, p.name, mbt.Truncate(msg, 200)), Case: c.kase("T", p, b)})
 		return o
 	}
 	tok, ok := p.find(o.text, o.it)
 	if !ok {
-		c.rep.Fail(mbt.Failure{Signature: "C11|" + p.name + "|printer|position not found in output|" + shape(b),
+		c.rep.Fail(mbt.Failure{Signature: "C11|" + p.enc + "|position " + p.name + " not found in output|" + shape(b),
 			What: fmt.Sprintf("the printed module does not show position %s for %q:\n%s", p.name, b, mbt.Truncate(o.text, 300)), Case: c.kase("T", p, b)})
 		return o
 	}
@@ -307,7 +335,7 @@ func (c *checker) codeToSpec(p *position, bs []string) {
 	for _, o := range all {
 		key := p.name + "|" + o.tok
 		if prev, ok := c.uniq[key]; ok && prev != o.it.b {
-			c.rep.Fail(mbt.Failure{Signature: "C11|" + p.name + "|printer|two names print alike|" + shape(o.it.b),
+			c.rep.Fail(mbt.Failure{Signature: "C11|" + p.enc + "|two names print alike|" + shape(o.it.b),
 				What: fmt.Sprintf("position %s: %q and %q are both printed as %s", p.name, prev, o.it.b, o.tok), Case: c.kase("T", p, o.it.b)})
 		}
 		c.uniq[key] = o.it.b
@@ -347,7 +375,7 @@ func (c *checker) codeToSpec(p *position, bs []string) {
 		if !pan {
 			out, ok, _ = canon(p, text)
 		}
-		if !ok {
+		if !ok || out == disCrashed {
 			mu.Lock()
 			single = append(single, batch...)
 			mu.Unlock()
@@ -371,8 +399,11 @@ func (c *checker) codeToSpec(p *position, bs []string) {
 		o.llvmOK, o.llvmDiag = ok, diag
 		if ok {
 			tok, found := p.find(out, o.it)
-			if p.asOnly {
+			if p.asOnly || out == disCrashed {
 				o.llvmTok = o.tok
+				if out == disCrashed {
+					c.unobservable()
+				}
 			} else if found {
 				o.llvmTok = tok
 			} else {
@@ -406,7 +437,7 @@ func (c *checker) codeToSpec(p *position, bs []string) {
 			} else {
 				what += "llvm-as: " + mbt.Truncate(firstLine(o.llvmDiag), 160)
 			}
-			c.rep.Fail(mbt.Failure{Signature: "C11|" + p.name + "|printer|" + o.specBad + "|" + shape(b), What: what, Case: c.kase("T", p, b)})
+			c.rep.Fail(mbt.Failure{Signature: "C11|" + p.enc + "|" + o.specBad + "|" + shape(b), What: what, Case: c.kase("T", p, b)})
 		case o.specBad != "":
 			c.discard("position %s, %q printed as %s: the spec says %s but LLVM reads the bytes", p.name, b, o.tok, o.specBad)
 		default:
@@ -417,9 +448,13 @@ func (c *checker) codeToSpec(p *position, bs []string) {
 			}
 		}
 	}
-	// 5. the library's own parser reads its output back
+	// 5. the library's own parser reads its output back (a token already reported as wrong is the
+	// printer's defect; what the parser makes of it is a consequence, not a second finding)
 	for _, o := range all {
-		c.parseBack("T", p, o.it, o.text, "printer+parser", o.tok)
+		if o.specBad != "" && !(o.llvmOK && o.llvmBad == "") {
+			continue
+		}
+		c.parseBack("T", p, o.it, o.text, o.tok)
 	}
 }
 
@@ -431,17 +466,18 @@ func firstLine(s string) string {
 }
 
 // parseBack parses text with the library and compares the bytes at the position.
-func (c *checker) parseBack(dir string, p *position, it item, text, site, tok string) bool {
+func (c *checker) parseBack(dir string, p *position, it item, text, tok string) bool {
 	b := it.b
+	site := "parser"
 	var m *ir.Module
 	var err error
 	if msg, pan := mbt.Guard(func() { m, err = asm.ParseString("c11.ll", text) }); pan {
-		c.rep.Fail(mbt.Failure{Signature: "C11|" + p.name + "|" + site + "|panic|" + shape(b),
+		c.rep.Fail(mbt.Failure{Signature: "C11|" + site + "|" + p.name + "|panic|" + shape(b),
 			What: fmt.Sprintf("position %s, %q spelled %s: asm.ParseString panics: %s", p.name, b, tok, mbt.Truncate(msg, 200)), Case: c.kase(dir, p, b)})
 		return false
 	}
 	if err != nil {
-		c.rep.Fail(mbt.Failure{Signature: "C11|" + p.name + "|" + site + "|rejected|" + shape(b),
+		c.rep.Fail(mbt.Failure{Signature: "C11|" + site + "|" + p.name + "|rejected|" + shape(b),
 			What: fmt.Sprintf("position %s, %q spelled %s: asm.ParseString fails: %s", p.name, b, tok, mbt.Truncate(firstLine(err.Error()), 200)), Case: c.kase(dir, p, b)})
 		return false
 	}
@@ -452,13 +488,13 @@ func (c *checker) parseBack(dir string, p *position, it item, text, site, tok st
 	}
 	switch {
 	case !ok:
-		c.rep.Fail(mbt.Failure{Signature: "C11|" + p.name + "|" + site + "|position lost|" + shape(b),
+		c.rep.Fail(mbt.Failure{Signature: "C11|" + site + "|" + p.name + "|position lost|" + shape(b),
 			What: fmt.Sprintf("position %s, %q spelled %s: the parsed module does not have the entity", p.name, b, tok), Case: c.kase(dir, p, b)})
 	case isID:
-		c.rep.Fail(mbt.Failure{Signature: "C11|" + p.name + "|" + site + "|read-as-id|" + shape(b),
+		c.rep.Fail(mbt.Failure{Signature: "C11|" + site + "|" + p.name + "|read-as-id|" + shape(b),
 			What: fmt.Sprintf("position %s, %q spelled %s: parsed back as the unnamed ID %s", p.name, b, tok, got), Case: c.kase(dir, p, b)})
 	case got != b:
-		c.rep.Fail(mbt.Failure{Signature: "C11|" + p.name + "|" + site + "|other-bytes|" + shape(b),
+		c.rep.Fail(mbt.Failure{Signature: "C11|" + site + "|" + p.name + "|other-bytes|" + shape(b),
 			What: fmt.Sprintf("position %s, %q spelled %s: parsed back as %q", p.name, b, tok, got), Case: c.kase(dir, p, b)})
 	default:
 		return true
@@ -472,7 +508,9 @@ func (c *checker) parseBack(dir string, p *position, it item, text, site, tok st
 type vector struct {
 	Kind  string `json:"kind"`
 	Bytes []int  `json:"bytes"`
-	Tok   []int  `json:"tok"`
+	Tag   string `json:"tag"` // "reference" or the name of an alternative spelling
+	Ref   []int  `json:"ref"` // LLVM's canonical spelling
+	Tok   []int  `json:"tok"` // the spelling fed to the parser
 }
 
 func readVectors(out string) []vector {
@@ -495,20 +533,30 @@ func readVectors(out string) []vector {
 }
 
 type gcase struct {
-	b, tok string
+	b, tok, ref, tag string
 }
 
 func (c *checker) specToCode(p *position, cases []gcase) {
-	var use []gcase
+	// the spellings of one byte string name the same entity: one module per kind of spelling
+	byTag := map[string][]gcase{}
+	var tags []string
 	for _, g := range cases {
 		if permitted(p, g.b) {
-			use = append(use, g)
+			if _, ok := byTag[g.tag]; !ok {
+				tags = append(tags, g.tag)
+			}
+			byTag[g.tag] = append(byTag[g.tag], g)
 		}
 	}
-	if len(use) == 0 {
-		return
+	sort.Strings(tags)
+	for _, tag := range tags {
+		c.specToCodeTag(p, byTag[tag])
 	}
+}
+
+func (c *checker) specToCodeTag(p *position, use []gcase) {
 	full := func(g gcase) string { return p.strip + g.tok }
+	fullRef := func(g gcase) string { return p.strip + g.ref }
 	// LLVM must read the reference spelling as the spec says: its canonical spelling is the same token.
 	valid := make([]bool, len(use))
 	type job struct{ lo, hi int }
@@ -532,6 +580,14 @@ func (c *checker) specToCode(p *position, cases []gcase) {
 			toks[i-lo] = full(use[i])
 		}
 		out, ok, diag := canon(p, p.text(toks, its))
+		if ok && out == disCrashed {
+			if hi-lo > 1 {
+				return false
+			}
+			c.unobservable()
+			valid[lo] = true
+			return true
+		}
 		if !ok {
 			if hi-lo == 1 {
 				c.discard("position %s: llvm-as rejects the reference spelling %s of %q: %s", p.name, toks[0], use[lo].b, mbt.Truncate(firstLine(diag), 160))
@@ -540,10 +596,10 @@ func (c *checker) specToCode(p *position, cases []gcase) {
 		}
 		for i := lo; i < hi; i++ {
 			tok, found := p.find(out, its[i-lo])
-			if p.asOnly || (found && tok == toks[i-lo]) {
+			if p.asOnly || (found && tok == fullRef(use[i])) {
 				valid[i] = true
 			} else {
-				c.discard("position %s: LLVM spells %q as %s, the reference encoder as %s", p.name, use[i].b, tok, toks[i-lo])
+				c.discard("position %s: %q spelled %s: LLVM's canonical spelling is %s, the reference encoder's %s", p.name, use[i].b, toks[i-lo], tok, fullRef(use[i]))
 			}
 		}
 		return true
@@ -560,9 +616,9 @@ func (c *checker) specToCode(p *position, cases []gcase) {
 		if !valid[i] {
 			continue
 		}
-		c.rep.Count("G|"+p.name+"|"+g.b, true)
+		c.rep.Count("G|"+p.name+"|"+g.tag+"|"+g.b, true)
 		it := item{idx: 7, ord: 0, b: g.b}
-		c.parseBack("G", p, it, p.text([]string{full(g)}, []item{it}), "parser", full(g))
+		c.parseBack("G", p, it, p.text([]string{full(g)}, []item{it}), full(g))
 	}
 }
 
@@ -581,9 +637,9 @@ func (c *checker) encoders(bs []string) {
 		{"enc.TypeName", "type", "type", verifshim.TypeName},
 		{"enc.ComdatName", "comdat", "comdat", verifshim.ComdatName},
 		{"enc.MetadataName", "mdname", "mdname", verifshim.MetadataName},
-		{"enc.EscapeIdent", "comdat", "comdat", func(s string) string { return "$" + verifshim.EscapeIdent(s) }},
 		{"enc.Quote", "string", "section", func(s string) string { return verifshim.Quote([]byte(s)) }},
-		{"enc.EscapeString", "string", "section", func(s string) string { return `"` + verifshim.EscapeString([]byte(s)) + `"` }},
+		{"enc.Quote", "string", "section", func(s string) string { return `"` + verifshim.EscapeString([]byte(s)) + `"` }},
+		{"enc.ComdatName", "comdat", "comdat", func(s string) string { return "$" + verifshim.EscapeIdent(s) }},
 	}
 	var rows []row
 	type meta struct {
@@ -676,7 +732,7 @@ func (c *checker) encoders(bs []string) {
 		results[k] = res{ok: ok, diag: diag}
 		if ok {
 			results[k].tok, _ = p.find(out, it)
-			if p.asOnly {
+			if p.asOnly || out == disCrashed {
 				results[k].tok = str(r.Tok)
 			}
 		}
@@ -826,7 +882,7 @@ func Run(tier, replay string) {
 	rep := mbt.NewReport("C11", tier, "model_checking")
 	rep.Rule = "distinct (position, byte string) pairs whose printed token was decoded by TLC with LLVM's lexer rules, read by llvm-as | llvm-dis and parsed back by asm; plus (position, byte string) pairs whose reference spelling was confirmed by LLVM and fed to the real parser; plus direct recordings of the internal/enc encoders"
 	llvmoracle.Require()
-	c := &checker{rep: rep, tier: tier, uniq: map[string]string{}}
+	c := &checker{rep: rep, tier: tier, uniq: map[string]string{}, discardBy: map[string]int{}}
 	if replay != "" {
 		runReplay(c, replay)
 		rep.Finish()
@@ -867,7 +923,7 @@ func Run(tier, replay string) {
 	rep.Extra["vectors_from_tlc"] = len(vectors)
 	byKind := map[string][]gcase{}
 	for _, v := range vectors {
-		byKind[v.Kind] = append(byKind[v.Kind], gcase{b: str(v.Bytes), tok: str(v.Tok)})
+		byKind[v.Kind] = append(byKind[v.Kind], gcase{b: str(v.Bytes), tok: str(v.Tok), ref: str(v.Ref), tag: v.Tag})
 	}
 
 	// byte strings for the code -> spec direction
@@ -904,7 +960,9 @@ func Run(tier, replay string) {
 		if only != "" && p.name != only {
 			continue
 		}
+		t1 := time.Now()
 		c.specToCode(p, byKind[p.kind])
+		rep.Extra["wall_s_spec_to_code_"+p.name] = time.Since(t1).Seconds()
 	}
 	rep.Extra["wall_s_spec_to_code"] = time.Since(t0).Seconds()
 	c.encoders(append([]string{""}, uniq...))
@@ -912,14 +970,16 @@ func Run(tier, replay string) {
 
 	total := rep.Evaluations
 	rep.Extra["records_discarded_spec_llvm_disagreement"] = c.discards
+	rep.Extra["records_discarded_by_position"] = c.discardBy
+	rep.Extra["records_llvm_as_accepted_but_llvm_dis_crashed"] = c.disCrash
 	if total > 0 && c.discards*50 > total {
-		mbt.Infra("%d of %d records discarded because the spec and LLVM disagree (> 2%%): the specification is wrong", c.discards, total)
+		mbt.Infra("%d of %d records discarded because the spec and LLVM disagree (> 2%%): the specification is wrong (%v)", c.discards, total, c.discardBy)
 	}
 	rep.Sample(map[string]interface{}{"dir": "code->spec", "position": "global", "bytes": "a b", "printed": verifshim.GlobalName("a b")})
 	rep.Sample(map[string]interface{}{"dir": "code->spec", "position": "mdname", "bytes": "1 a", "printed": verifshim.MetadataName("1 a")})
 	if len(vectors) > 3 {
 		for _, v := range vectors[:2] {
-			rep.Sample(map[string]interface{}{"dir": "spec->code", "kind": v.Kind, "bytes": str(v.Bytes), "reference_token": str(v.Tok)})
+			rep.Sample(map[string]interface{}{"dir": "spec->code", "kind": v.Kind, "bytes": str(v.Bytes), "spelling": v.Tag, "token": str(v.Tok)})
 		}
 	}
 	rep.Exhaustive = false
@@ -993,7 +1053,7 @@ func (c *checker) replayG(p *position, b string) {
 	defer t.Cleanup()
 	for _, v := range readVectors(t.Output) {
 		if str(v.Bytes) == b {
-			c.specToCode(p, []gcase{{b: b, tok: str(v.Tok)}})
+			c.specToCode(p, []gcase{{b: b, tok: str(v.Tok), ref: str(v.Ref), tag: v.Tag}})
 		}
 	}
 }
